@@ -223,11 +223,76 @@ def one_case(args):
     return out
 
 
+def storm_case(args):
+    """scale: a statistics file with more than 100 000 error messages from four links (tens of MB): it still round-trips, in both formats, and drift of
+    one late message or of the total is still detected"""
+    import frame, json as _json
+    exe, wd, seed, case, tier = args
+    rng = rng_for(seed, 800000 + case)
+    out = dict(case=case, viol=None, runs=0, roundtrips=0, leaves=0, drift_detected=0, key=None, sample=None)
+    nl, per = 4, 30000
+    fp = frame.generate(rng, nl * per, payload="none", sane_headers=True)
+    for i, q in enumerate(fp):
+        q.f["system_id"] = 32
+        q.f["link_id"] = i % nl
+        q.f["fee_id"] = 0x1000 * (i % nl) + 3
+        q.f["stop_bit"] = 2
+    path = os.path.join(wd, "s%d.raw" % case)
+    write_file(path, frame.serialize(fp))
+    fmt = ["json", "toml"][case % 2]
+    N = 9
+    argv = [path, "check", ["sanity", "all"][(case // 2) % 2], "-m", "-E", str(N)]
+    out["sample"] = "storm: %d RDHs with errors on %d links, %s, %s" % (nl * per, nl, " ".join(argv[1:3]), fmt)
+
+    def bad(what, r):
+        d = save_replay("C15", "storm%d" % case, {"stderr.txt": r.stderr[-20000:]}, dict(seed=seed, case=case, argv=argv, what=what, note="input regenerated from (seed, case): storm_case"))
+        out["viol"] = ("stats-file:storm:%s" % what.split(":")[0], "%s: %s" % (out["sample"], what), d)
+        return out
+    try:
+        a = obs.run(exe, argv, workdir=wd, stats=fmt, tag="s%da" % case, timeout=300)
+        out["runs"] += 1
+        if a.abnormal(allowed_rc=(N,)) or a.stats is None:
+            return bad("abnormal end of the writing run: %s" % a.abnormal(allowed_rc=(N,)), a)
+        k = a.total_errors()
+        if k < 100000:
+            return bad("harness: only %d errors" % k, a)
+        sp = os.path.join(wd, "s%d_old.%s" % (case, fmt))
+        write_file(sp, a.stats_raw)
+        b = obs.run(exe, argv + ["-i", sp, "-v", "2"], workdir=wd, tag="s%db" % case, timeout=300)
+        out["runs"] += 1
+        out["roundtrips"] += 1
+        if b.sig is not None or b.panicked() or b.timeout or b.rc not in (N,):
+            return bad("round trip: second run ended abnormally: %s" % b.abnormal(allowed_rc=(N,)), b)
+        if "did not match" in b.stderr or "mismatch" in b.stderr.lower().replace("mismatching", ""):
+            return bad("round trip: the file written by the identical run (%d errors, %d bytes) is reported as a mismatch" % (k, len(a.stats_raw)), b)
+        if fmt == "json":
+            st = _json.loads(a.stats_raw)
+            msgs = st["error_stats"]["reported_errors"]
+            msgs[-5] = msgs[-5].replace("[E1", "[E9", 1) if "[E1" in msgs[-5] else msgs[-5] + " x"
+            write_file(sp, _json.dumps(st).encode())
+            c = obs.run(exe, argv + ["-i", sp, "-v", "2"], workdir=wd, tag="s%dc" % case, timeout=300)
+            out["runs"] += 1
+            out["leaves"] += 1
+            if c.sig is not None or c.panicked() or c.timeout:
+                return bad("drift: abnormal end %s" % c.abnormal(allowed_rc=(N,)), c)
+            if "did not match" not in c.stderr:
+                return bad("drift undetected: one changed message near the end of %d messages is accepted" % len(msgs), c)
+            out["drift_detected"] += 1
+        out["key"] = ("storm", fmt, argv[2])
+    finally:
+        for f in (path, os.path.join(wd, "s%d_old.%s" % (case, fmt))):
+            if os.path.exists(f):
+                os.unlink(f)
+    return out
+
+
 def run(res):
     exe = build.fastpasta("rel")
     wd = scratch("c15")
     n = 14 if res.tier == "quick" else 600
-    for o in pmap(one_case, [(exe, wd, res.seed, c, res.tier) for c in range(n)]):
+    outs = pmap(one_case, [(exe, wd, res.seed, c, res.tier) for c in range(n)])
+    outs += pmap(storm_case, [(exe, wd, res.seed, c, res.tier) for c in range(2 if res.tier == "quick" else 8)], workers=4)
+    for o in outs:
         res.evaluations += o["runs"]
         res.count("round_trips", o["roundtrips"])
         res.count("leaf_perturbations", o["leaves"])
@@ -239,7 +304,7 @@ def run(res):
         if o["sample"]:
             res.sample(o["sample"])
     res.rule = ("inputs {clean, erroneous with multi-line / tab / bracket messages, multi-link} x check modes x {JSON, TOML} x {-, -m}: round trip, then every leaf of rdh_stats / error_stats "
-                "(/ alpide_stats in stave mode) perturbed one at a time (quick: 40 sampled perturbations per file, thorough: all), then a changed input with the old file; "
+                "(/ alpide_stats in stave mode) perturbed one at a time (quick: 40 sampled perturbations per file, thorough: all), then a changed input with the old file; plus storm cases (> 100 000 messages from 4 links, files of tens of MB: round trip and drift of a late message); "
                 "non-trivial = distinct (input class, mode, format, options) with >= 1 detected drift")
     res.min_nontrivial = 6 if res.tier == "quick" else 25
     res.assumptions = ["perturbed files stay well-typed (a malformed statistics file is not a well-formed configuration)", "is_finalized is not a statistic"]
